@@ -351,11 +351,23 @@ def immut_case(rng, a):
         arrs = []
         harvest_arrays(ret, arrs)
         arecs = []
+        originals = [np.array(arr, copy=True) for arr in arrs[:6]]
         for arr in arrs[:6]:
             w = 1 if arr.flags.writeable else 0
             wrote = try_write(arr)
             arecs.append(dict(writeable=w, wrote=wrote, digest_after_write=digest(ts)))
-        events.append(dict(call=name, raised=raised, digest=digest(ts), arrays=arecs))
+        # "either copies or not writeable": after the writes the same call must still give what it gave before
+        refetch_same = 1
+        if any(x["wrote"] for x in arecs) and not raised and not name.startswith(("auto:TreeSequence.split_polytomies", "auto:Tree.split_polytomies")):
+            try:
+                again = []
+                harvest_arrays(fn(), again)
+                for o_, a_ in zip(originals, again[:6]):
+                    if o_.shape != a_.shape or not np.array_equal(o_, a_, equal_nan=(o_.dtype.kind == "f")):
+                        refetch_same = 0
+            except Exception:
+                refetch_same = 0
+        events.append(dict(call=name, raised=raised, digest=digest(ts), arrays=arecs, refetch_same=refetch_same))
     # --- TreeSequence attributes that are arrays / properties
     names = [n for n in dir(ts) if not n.startswith("_")]
     rng.shuffle(names)
